@@ -203,8 +203,8 @@ def dqGo (st : DqSt) : List Char → Option (List Char)
         | .ws _ => dqGo { st with pend := .brk [normBreak c] [], col0 := true, esc := esc' } rest
         | .brk l t => dqGo { st with pend := .brk l (t ++ [normBreak c]), col0 := true, esc := esc' } rest
       else if st.col0 && docIndicator (c :: rest) then none
-      else if c = '"' then none
-      else if c = '\\' then dqGo { out := flush st.out st.pend, pend := .ws [], col0 := false, esc := .bs } rest
+      else if c.toNat = 34 then none
+      else if c.toNat = 92 then dqGo { out := flush st.out st.pend, pend := .ws [], col0 := false, esc := .bs } rest
       else dqGo { out := flush st.out st.pend ++ [c], pend := .ws [], col0 := false, esc := .none } rest
 
 def dqStart : DqSt := { out := [], pend := .ws [], col0 := false, esc := .none }
